@@ -11,6 +11,8 @@ import (
 	"bufio"
 	"flag"
 	"fmt"
+	"io"
+	"log"
 	"os"
 	"strconv"
 	"strings"
@@ -28,6 +30,7 @@ var props = map[string]*prop{}
 
 func main() {
 	flag.Set("logtostderr", "true")
+	log.SetOutput(io.Discard)
 	if len(os.Args) < 2 {
 		usage()
 	}
